@@ -93,6 +93,9 @@ def run(ctx):
 
     # shared block-skip obligations
     blocks_rule(ctx)
+    # every skip_bytes implementation skips exactly n (shared with C11)
+    from .c11 import skip_rule
+    skip_rule(ctx)
 
     # record access: peek / advance
     rk = fn_by_label(f, '<de::deserializer::types::record::RecordMapAccess as serde_core::de::MapAccess>::next_key_seed')
